@@ -156,7 +156,7 @@ def _pd_tables(sources: List[str]) -> List[Dict[str, Any]]:
         if isinstance(o, model.Function):
             base = {K.FUNCTION: "function", K.METHOD: "method", K.CLASS_METHOD: "class method",
                     K.STATIC_METHOD: "static method"}.get(o.kind, str(o.kind))
-            return ("async " + base) if o.is_async else base
+            return ("async " + base) if o.is_async and o.kind in (K.FUNCTION, K.METHOD) else base
         if isinstance(o, model.Attribute):
             return "property" if o.kind is K.PROPERTY else "variable"
         return type(o).__name__
